@@ -51,6 +51,7 @@ class Cfg(object):
         self.due = False
         self.per_task_rules = True
         self.work_pool = None  # override of WORK_POOL (dyadic mode)
+        self.warm = 0  # 1 in n specs asks for a warm start (spec.warm_build: morph / graft after an earlier run)
         self.servable = 0  # k in 4 specs get a worker (and workplace/facility) that can serve every task
         self.onesided = 0  # 1 in n teams/workplaces has some links on its own side only (0 = never)
         self.abs_p = 3  # 1 in abs_p workers (abs_p+1 facilities) has an own absence list
@@ -305,6 +306,8 @@ def model_spec(draw, cfg):
         spec["tie_rich"] = True
     if servable:
         make_servable(spec)
+    if _one_in(draw, cfg.warm):
+        spec["warm"] = {"mode": draw(st.sampled_from(["morph", "graft"])), "k": draw(st.integers(1, 3))}
     return spec
 
 
